@@ -486,24 +486,29 @@ pub fn run_all(ctx: &mut Ctx, z3: &mut Z3, tier: &str, seed: u64, repo: &Path, s
             member_lists.push((0..k).map(|_| rng.below(accepted.len())).collect());
         }
         let strat: Vec<(&'static str, String)> = accepted.iter().map(|m| { let (k, l, _) = m.2.verif_strategy(); (k, l) }).collect();
-        let mut related = 0;
-        'outer: for i in 0..accepted.len() {
+        let per_kind = if tier == "thorough" { 200 } else { 40 };
+        let mut related: std::collections::HashMap<&'static str, usize> = Default::default();
+        for i in 0..accepted.len() {
+            if strat[i].0 == "Regex" || *related.get(strat[i].0).unwrap_or(&0) >= per_kind {
+                continue;
+            }
             for j in 0..accepted.len() {
-                if i == j || strat[i].0 != strat[j].0 || strat[i].0 == "Regex" {
+                if i == j || strat[i].0 != strat[j].0 {
                     continue;
                 }
                 let (a, b) = (&strat[i].1, &strat[j].1);
                 if a.len() <= b.len() && (b.starts_with(a.as_str()) || b.ends_with(a.as_str())) {
                     // third member: another of the same kind if available
-                    let third = (0..accepted.len()).find(|&t| t != i && t != j && strat[t].0 == strat[i].0 && (strat[t].1.starts_with(a.as_str()) || strat[t].1.ends_with(a.as_str())));
+                    let third = (0..accepted.len()).find(|&t| t != i && t != j && strat[t].0 == strat[i].0 && strat[t].1 != *a && strat[t].1 != *b && (strat[t].1.starts_with(a.as_str()) || strat[t].1.ends_with(a.as_str())));
                     let mut v = vec![i, j];
                     if let Some(t) = third {
                         v.push(t);
                     }
                     member_lists.push(v);
-                    related += 1;
-                    if related >= 3 * nsets {
-                        break 'outer;
+                    let c = related.entry(strat[i].0).or_default();
+                    *c += 1;
+                    if *c >= per_kind {
+                        break;
                     }
                 }
             }
